@@ -555,3 +555,23 @@ Proof.
           | apply cg_check | now apply ape_check_f32 ].
 Qed.
 
+
+(* ---- the refutations in the form "some input is changed" *)
+Open Scope Q_scope.
+Theorem matching_refuted : exists stamps_1 stamps_2 offset,
+  post_args (list Q) [] (p_matching (list Q) (K_matching offset)) [stamps_1; stamps_2] <> [stamps_1; stamps_2].
+Proof. exists [0], [0], 1. rewrite matching_witness. intro H. inversion H. Qed.
+
+Theorem quat2unit_refuted : forall (normalize : list Q -> list Q) (zero_detected : nat -> list (list Q) -> bool),
+  normalize [0; 0; 0; 2] = [0; 0; 0; 1] ->
+  exists input, post_args (list Q) [] (p_quat2unit (list Q) (K_quat2unit normalize 0 4) zero_detected) [input] <> [input].
+Proof.
+  intros normalize zd Hn. exists [0; 0; 0; 2]. rewrite quat2unit_witness. simpl. rewrite Hn. simpl.
+  intro H. inversion H.
+Qed.
+
+Theorem cg_refuted : exists A b x M,
+  map (map Qred) (post_args (list Q) [] (p_cg (list Q) K_cg1 (C_cg1 (1 # 100000)) true false 10%nat) [A; b; x; M])
+  <> map (map Qred) [A; b; x; M].
+Proof. exists [1], [1], [0], []. rewrite cg_witness. vm_compute. intro H. inversion H. Qed.
+Close Scope Q_scope.
